@@ -459,6 +459,14 @@ fn configs(g: &Group, tier: Tier) -> Vec<Config> {
 					out.push(Config { files: vec![(s1.clone(), c1.to_string()), (s2.clone(), c2.to_string())], watch: None });
 				}
 			}
+			// two placed files *and* an explicit directory watch: one file ignores a directory (or
+			// everything), the other re-includes the directory — whether a directory on the way to
+			// the watch is entered must be decided with the complete set of files applying to it
+			for (c1, c2) in [("a/\n", "!a/\n"), ("!a/\n", "a/\n"), ("*\n", "!a/\n"), ("!a/\n", "*\n")] {
+				for w in watches.iter().filter(|w| w.is_some() && !is_file_watch(w)) {
+					out.push(Config { files: vec![(s1.clone(), c1.to_string()), (s2.clone(), c2.to_string())], watch: w.clone() });
+				}
+			}
 		}
 	}
 	out
